@@ -67,11 +67,12 @@ def run(tier):
         tk, T = initial_target(rnd, A, B)
         limit = rnd.choice([1, 2, 3, 7, 127, 255, -1, -1])
         frag = rnd.choice([0, 1, 7, 1000, 16384]) if len(B) < 5000 else rnd.choice([0, 1000, 16384])
-        opts = rnd.choice(["", "", "quoted=1", "extra=1", "leadcrlf=0", "lower=1", "boundary=3d6b6a416f9b5"])
+        opts = rnd.choice(["", "", "quoted=1", "extra=1", "leadcrlf=0", "lower=1", "boundary=3d6b6a416f9b5", "partend=1", "partend=1"])
         # real servers pick a new multipart boundary for every response
         ropts = {r: "boundary=%s%dq" % (rnd.choice(["bnd", "x-", "7f3a", "B+"]), r) for r in range(40)} if (i % 2 == 0 and "boundary=" not in opts) else None
         sc = delta.Scenario("p%d" % i, wd, B, T, sources=[A] if A is not None else [], limit=limit, frag=frag, fetch_opts=opts, round_opts=ropts,
                             name="%s pair, target %s, limit %d, frag %d %s" % (kind, tk, limit, frag, opts))
+        sc.must = True          # the in-process server is well behaved: the update has to complete
         sc.write_files(); scs.append(sc)
     # deterministic: several multipart responses in ONE session, each with its own boundary (limits 2 and 3 over six
     # separate missing extents), fed whole and in fragments
@@ -81,10 +82,12 @@ def run(tier):
         kw = dict(comp_type=comp, hash_type=1, chunk_hash_type=3, level=3)
         A2 = ref.build_file(cA, **kw)[0]; B2 = ref.build_file(cB, **kw)[0]
         for limit in (2, 3):
-            for frag in (0, 9):
-                ro = {r: "boundary=resp%dz%s" % (r, "+" if r % 2 else "") for r in range(40)}
+            for frag in (0, 9, -1):
+                ro = {r: "boundary=resp%dz%s%s" % (r, "+" if r % 2 else "", " partend=1" if frag == -1 else "") for r in range(40)}
+                if frag == -1: frag = 0
                 sc = delta.Scenario("p%d" % len(scs), wd, B2, b"", sources=[A2], limit=limit, frag=frag, round_opts=ro,
                                     name="six separate missing extents, limit %d, a new boundary per response, frag %d, comp %d" % (limit, frag, comp))
+                sc.must = True
                 sc.write_files(); scs.append(sc)
     nproc = 12
     parts = ["".join(s.script() for s in scs[i::nproc]) for i in range(nproc)]
